@@ -50,6 +50,9 @@ class TupleMeanState(base.CallableMetric):
     return TupleMeanState(tuple(MeanState().new(x) for x in inputs))
 
   def merge(self, other: TupleMeanState):
+    if not other.states:
+      # Merging an empty state is a no-op.
+      return
     if not self.states:
       self.states = tuple(MeanState() for _ in other.states)
     for state, state_other in zip(self.states, other.states, strict=True):
